@@ -209,14 +209,14 @@ FAULT_BIG = {
         dict(kind='wtlfu', **wt(8, 20, 24, 100, 72, [1, 2], random=(2, 600))),
     ],
     'thorough': [
-        dict(kind='raw', **raw(40, [0, 1, 2, 5, 10, 36, 38, 39, 41, 64], 64, [1, 2], random=(12, 400))),
-        dict(kind='raw', **raw(100, [0, 1, 3, 7, 25, 50, 90, 97, 99, 101, 128], 150, [1, 2], random=(6, 1000))),
-        dict(kind='slru', **slru(20, 24, 64, [1, 2], random=(12, 500))),
-        dict(kind='slru', **slru(4, 40, 64, [1, 2], random=(6, 500))),
-        dict(kind='2q', **twoq(40, 10, 20, 72, [1, 2], random=(12, 600))),
-        dict(kind='2q', **twoq(16, 16, 16, 30, [1, 2], random=(6, 300))),
-        dict(kind='arc', **arc(32, 72, [1, 2], random=(12, 600))),
-        dict(kind='wtlfu', **wt(8, 20, 24, 100, 72, [1, 2], random=(12, 600))),
-        dict(kind='wtlfu', **wt(1, 19, 80, 200, 130, [1, 2], random=(4, 1500))),
+        dict(kind='raw', **raw(40, [0, 1, 2, 5, 10, 36, 38, 39, 41, 64], 64, [1, 2], random=(5, 400))),
+        dict(kind='raw', **raw(100, [0, 1, 3, 7, 25, 50, 90, 97, 99, 101, 128], 150, [1, 2], random=(2, 1000))),
+        dict(kind='slru', **slru(20, 24, 64, [1, 2], random=(5, 500))),
+        dict(kind='slru', **slru(4, 40, 64, [1, 2], random=(3, 500))),
+        dict(kind='2q', **twoq(40, 10, 20, 72, [1, 2], random=(5, 600))),
+        dict(kind='2q', **twoq(16, 16, 16, 30, [1, 2], random=(3, 300))),
+        dict(kind='arc', **arc(32, 72, [1, 2], random=(5, 600))),
+        dict(kind='wtlfu', **wt(8, 20, 24, 100, 72, [1, 2], random=(5, 600))),
+        dict(kind='wtlfu', **wt(1, 19, 80, 200, 130, [1, 2], random=(2, 1000))),
     ],
 }
